@@ -8,22 +8,31 @@ open SurfProofs.Lemmas.KittyParse
 
 /-! ## composition over the three layers -/
 
-/-- reading `bytes` yields exactly the commands `cmds` (leaving no transfer open) -/
-def Emits (bytes : List UInt8) (cmds : List KCmd) : Prop :=
+/-- reading `bytes` with payload decoder `dec` yields exactly the commands `cmds` (leaving no transfer open) -/
+def EmitsWith (dec : List UInt8 → Option (List UInt8)) (bytes : List UInt8) (cmds : List KCmd) : Prop :=
   ∃ bodies raws, Renders bytes bodies ∧ bodies.mapM parseBody = some raws ∧
-    ∀ out, raws.foldl asmStep ⟨none, out, true⟩ = ⟨none, cmds.reverse ++ out, true⟩
+    ∀ out, raws.foldl (asmStep dec) ⟨none, out, true⟩ = ⟨none, cmds.reverse ++ out, true⟩
 
-theorem Emits.kitty {bytes : List UInt8} {cmds : List KCmd} (h : Emits bytes cmds) : kitty bytes = some cmds := by
+/-- … with the strict RFC 4648 decoder -/
+abbrev Emits (bytes : List UInt8) (cmds : List KCmd) : Prop := EmitsWith rfcDecode bytes cmds
+
+variable {dec : List UInt8 → Option (List UInt8)}
+
+theorem EmitsWith.kittyWith {bytes : List UInt8} {cmds : List KCmd} (h : EmitsWith dec bytes cmds) :
+    kittyWith dec bytes = some cmds := by
   obtain ⟨bodies, raws, h1, h2, h3⟩ := h
-  unfold SurfModel.KittySpec.kitty
+  unfold SurfModel.KittySpec.kittyWith
   rw [h1.lex]
   simp only [h2]
   unfold assemble asmInit
   simp only [h3 []]
   simp
 
-theorem Emits.append {a b : List UInt8} {x y : List KCmd} (ha : Emits a x) (hb : Emits b y) :
-    Emits (a ++ b) (x ++ y) := by
+theorem EmitsWith.kitty {bytes : List UInt8} {cmds : List KCmd} (h : Emits bytes cmds) : kitty bytes = some cmds :=
+  EmitsWith.kittyWith h
+
+theorem EmitsWith.append {a b : List UInt8} {x y : List KCmd} (ha : EmitsWith dec a x) (hb : EmitsWith dec b y) :
+    EmitsWith dec (a ++ b) (x ++ y) := by
   obtain ⟨b1, r1, h1, h2, h3⟩ := ha
   obtain ⟨b2, r2, k1, k2, k3⟩ := hb
   refine ⟨b1 ++ b2, r1 ++ r2, h1.append k1, ?_, ?_⟩
@@ -32,16 +41,19 @@ theorem Emits.append {a b : List UInt8} {x y : List KCmd} (ha : Emits a x) (hb :
     rw [List.foldl_append, h3 out, k3]
     simp
 
-theorem Emits.silent {bytes : List UInt8} (h : Renders bytes []) : Emits bytes [] :=
+theorem EmitsWith.silent {bytes : List UInt8} (h : Renders bytes []) : EmitsWith dec bytes [] :=
   ⟨[], [], h, rfl, fun _ => rfl⟩
 
-theorem Emits.nil : Emits [] [] := Emits.silent Renders.nil
+theorem EmitsWith.nil : EmitsWith dec [] [] := EmitsWith.silent Renders.nil
+
+theorem Emits.silent {bytes : List UInt8} (h : Renders bytes []) : Emits bytes [] := EmitsWith.silent h
+theorem Emits.nil : Emits [] [] := EmitsWith.nil
 
 /-- one command: body, its parse, its effect -/
-theorem Emits.one {body : List UInt8} {raw : Raw} {cmd : KCmd} (hb : ∀ b ∈ body, b ≠ 27)
+theorem EmitsWith.one {body : List UInt8} {raw : Raw} {cmd : KCmd} (hb : ∀ b ∈ body, b ≠ 27)
     (hp : parseBody body = some raw)
-    (ha : ∀ out, asmStep ⟨none, out, true⟩ raw = ⟨none, cmd :: out, true⟩) :
-    Emits ([27, 95, 71] ++ body ++ [27, 92]) [cmd] := by
+    (ha : ∀ out, asmStep dec ⟨none, out, true⟩ raw = ⟨none, cmd :: out, true⟩) :
+    EmitsWith dec ([27, 95, 71] ++ body ++ [27, 92]) [cmd] := by
   refine ⟨[body], [raw], Renders.apcBody body hb, ?_, ?_⟩
   · simp [List.mapM_cons, hp]
   · intro out; simp [ha out]
@@ -56,7 +68,7 @@ theorem parsed_dec (k : UInt8) (n : Nat) : parsedItem (k, decimal n) = (k, .num 
 
 /-! ## put and delete -/
 
-theorem emits_put (id pid q : Nat) : Emits (putBytes id pid q) [.put id pid] := by
+theorem emits_put (id pid q : Nat) : EmitsWith dec (putBytes id pid q) [.put id pid] := by
   unfold putBytes apc
   have hc : Clean [((97 : UInt8), [(112 : UInt8)]), (105, decimal id), (67, [49]), (112, decimal pid), (113, decimal q)] := by
     intro kv hkv
@@ -74,14 +86,14 @@ theorem emits_put (id pid q : Nat) : Emits (putBytes id pid q) [.put id pid] := 
     rcases hb with hb | hb
     · exact (renderCtrl_clean _ hc b hb).1
     · subst hb; decide
-  have := Emits.one (cmd := .put id pid) hbody hp (by
+  have := EmitsWith.one (dec := dec) (cmd := .put id pid) hbody hp (by
     intro out
     simp only [List.map_cons, List.map_nil, parsed_dec]
     simp [asmStep, asmEmit, Raw.chrD, Raw.numD, Raw.find, List.lookup, parsedItem, parseVal, isDigit, readNat])
   simpa [List.append_assoc] using this
 
 theorem emits_erase_pos (id pid : Nat) :
-    Emits (apc [(97, [100]), (100, [105]), (105, decimal id), (112, decimal pid)] none) [.delete 105 id pid] := by
+    EmitsWith dec (apc [(97, [100]), (100, [105]), (105, decimal id), (112, decimal pid)] none) [.delete 105 id pid] := by
   unfold apc
   have hc : Clean [((97 : UInt8), [(100 : UInt8)]), (100, [105]), (105, decimal id), (112, decimal pid)] := by
     intro kv hkv
@@ -92,14 +104,14 @@ theorem emits_erase_pos (id pid : Nat) :
     · exact clean_dec _ _ (by decide)
     · exact clean_dec _ _ (by decide)
   have hp := parseBody_bare _ (by simp) hc
-  have := Emits.one (cmd := .delete 105 id pid) (fun b hb => (renderCtrl_clean _ hc b hb).1) hp (by
+  have := EmitsWith.one (dec := dec) (cmd := .delete 105 id pid) (fun b hb => (renderCtrl_clean _ hc b hb).1) hp (by
     intro out
     simp only [List.map_cons, List.map_nil, parsed_dec]
     simp [asmStep, asmEmit, Raw.chrD, Raw.numD, Raw.find, List.lookup, parsedItem, parseVal, isDigit])
   simpa [List.append_assoc] using this
 
 theorem emits_erase_all (id : Nat) :
-    Emits (apc [(97, [100]), (100, [105]), (105, decimal id)] none) [.delete 105 id 0] := by
+    EmitsWith dec (apc [(97, [100]), (100, [105]), (105, decimal id)] none) [.delete 105 id 0] := by
   unfold apc
   have hc : Clean [((97 : UInt8), [(100 : UInt8)]), (100, [105]), (105, decimal id)] := by
     intro kv hkv
@@ -109,7 +121,7 @@ theorem emits_erase_all (id : Nat) :
     · unfold CleanItem; decide
     · exact clean_dec _ _ (by decide)
   have hp := parseBody_bare _ (by simp) hc
-  have := Emits.one (cmd := .delete 105 id 0) (fun b hb => (renderCtrl_clean _ hc b hb).1) hp (by
+  have := EmitsWith.one (dec := dec) (cmd := .delete 105 id 0) (fun b hb => (renderCtrl_clean _ hc b hb).1) hp (by
     intro out
     simp only [List.map_cons, List.map_nil, parsed_dec]
     simp [asmStep, asmEmit, Raw.chrD, Raw.numD, Raw.find, List.lookup, parsedItem, parseVal, isDigit])
@@ -285,16 +297,16 @@ theorem emit_parse (id h w q count : Nat) : ∀ (cs : List (List UInt8)) (index 
 
 /-- the keys of the first command, read back -/
 theorem finishTx_first (id h w q more : Nat) (c : List UInt8) (chunks : List (List UInt8)) (data : List UInt8)
-    (hd : rfcDecode chunks.flatten = some data) :
-    finishTx ⟨(firstCtrl id h w more q).map parsedItem, c⟩ chunks
+    (hd : dec chunks.flatten = some data) :
+    finishTx dec ⟨(firstCtrl id h w more q).map parsedItem, c⟩ chunks
       = some (.transmit false id 32 w h none data (chunks.map List.length)) := by
   simp only [firstCtrl, List.map_cons, List.map_nil, parsed_dec]
   simp [finishTx, Raw.chrD, Raw.numD, Raw.find, List.lookup, parsedItem, parseVal, isDigit, readNat, hd]
 
 theorem cont_fold (id h w q count : Nat) (first : Raw) (cmd : KCmd) (out : List KCmd) :
     ∀ (rest acc : List (List UInt8)) (index : Nat), 1 ≤ index → rest ≠ [] → index + rest.length = count →
-      finishTx first (acc.reverse ++ rest) = some cmd →
-      (emitRaws id h w q count index rest).foldl asmStep ⟨some (first, acc), out, true⟩
+      finishTx dec first (acc.reverse ++ rest) = some cmd →
+      (emitRaws id h w q count index rest).foldl (asmStep dec) ⟨some (first, acc), out, true⟩
         = ⟨none, cmd :: out, true⟩ := by
   intro rest
   induction rest with
@@ -312,7 +324,7 @@ theorem cont_fold (id h w q count : Nat) (first : Raw) (cmd : KCmd) (out : List 
     | cons c2 rest2 =>
       have hmore : index + 1 < count := by simp at hcount; omega
       simp only [emitRaws, List.foldl_cons]
-      have hstep : asmStep ⟨some (first, acc), out, true⟩ (chunkRaw id h w q count index c)
+      have hstep : asmStep dec ⟨some (first, acc), out, true⟩ (chunkRaw id h w q count index c)
           = ⟨some (first, c :: acc), out, true⟩ := by
         simp only [chunkRaw, chunkCtrl, hidx, if_false, hmore, if_true, contCtrl, List.map_cons, List.map_nil,
           parsed_dec]
@@ -324,8 +336,8 @@ theorem cont_fold (id h w q count : Nat) (first : Raw) (cmd : KCmd) (out : List 
 
 /-- all chunks of one transmission, assembled -/
 theorem emit_assemble (id h w q : Nat) (cs : List (List UInt8)) (hne : cs ≠ []) (data : List UInt8)
-    (hd : rfcDecode cs.flatten = some data) (out : List KCmd) :
-    (emitRaws id h w q cs.length 0 cs).foldl asmStep ⟨none, out, true⟩
+    (hd : dec cs.flatten = some data) (out : List KCmd) :
+    (emitRaws id h w q cs.length 0 cs).foldl (asmStep dec) ⟨none, out, true⟩
       = ⟨none, .transmit false id 32 w h none data (cs.map List.length) :: out, true⟩ := by
   cases cs with
   | nil => exact absurd rfl hne
@@ -335,8 +347,8 @@ theorem emit_assemble (id h w q : Nat) (cs : List (List UInt8)) (hne : cs ≠ []
       have hfin := finishTx_first id h w q 0 c [c] data hd
       simp only [emitRaws, List.foldl_cons, List.foldl_nil, chunkRaw, chunkCtrl, if_true, List.length_cons,
         List.length_nil, Nat.lt_irrefl, if_false]
-      have hkeys : asmStep ⟨none, out, true⟩ ⟨(firstCtrl id h w 0 q).map parsedItem, c⟩
-          = asmEmit ⟨none, out, true⟩ (finishTx ⟨(firstCtrl id h w 0 q).map parsedItem, c⟩ [c]) := by
+      have hkeys : asmStep dec ⟨none, out, true⟩ ⟨(firstCtrl id h w 0 q).map parsedItem, c⟩
+          = asmEmit ⟨none, out, true⟩ (finishTx dec ⟨(firstCtrl id h w 0 q).map parsedItem, c⟩ [c]) := by
         simp only [firstCtrl, List.map_cons, List.map_nil, parsed_dec]
         simp [asmStep, Raw.chrD, Raw.numD, Raw.find, List.lookup, parsedItem, parseVal, isDigit]
       rw [hkeys, hfin]
@@ -345,7 +357,7 @@ theorem emit_assemble (id h w q : Nat) (cs : List (List UInt8)) (hne : cs ≠ []
       have hfin := finishTx_first id h w q 1 c (c :: c2 :: rest2) data hd
       have hmore : 0 + 1 < (c :: c2 :: rest2).length := by simp
       simp only [emitRaws, List.foldl_cons]
-      have hstep : asmStep ⟨none, out, true⟩ (chunkRaw id h w q (c :: c2 :: rest2).length 0 c)
+      have hstep : asmStep dec ⟨none, out, true⟩ (chunkRaw id h w q (c :: c2 :: rest2).length 0 c)
           = ⟨some (⟨(firstCtrl id h w 1 q).map parsedItem, c⟩, [c]), out, true⟩ := by
         simp only [chunkRaw, chunkCtrl, if_true, hmore, firstCtrl, List.map_cons, List.map_nil, parsed_dec]
         simp [asmStep, Raw.chrD, Raw.numD, Raw.find, List.lookup, parsedItem, parseVal, isDigit]
@@ -356,8 +368,8 @@ theorem emit_assemble (id h w q : Nat) (cs : List (List UInt8)) (hne : cs ≠ []
 
 /-- the transmission part of `draw`, read back -/
 theorem emits_transmit (id h w q : Nat) (cs : List (List UInt8)) (hne : cs ≠ []) (data : List UInt8)
-    (hd : rfcDecode cs.flatten = some data) (hesc : ∀ c ∈ cs, ∀ b ∈ c, b ≠ 27) :
-    Emits (emitChunks id h w q cs.length 0 cs) [.transmit false id 32 w h none data (cs.map List.length)] :=
+    (hd : dec cs.flatten = some data) (hesc : ∀ c ∈ cs, ∀ b ∈ c, b ≠ 27) :
+    EmitsWith dec (emitChunks id h w q cs.length 0 cs) [.transmit false id 32 w h none data (cs.map List.length)] :=
   ⟨_, _, emit_renders id h w q cs.length cs 0 hesc, emit_parse id h w q cs.length cs 0,
     fun out => by rw [emit_assemble id h w q cs hne data hd out]; rfl⟩
 
